@@ -6,7 +6,7 @@ import ast
 from sa.engine.absinterp import Evaluator  # noqa: F401  (kept for the partition evaluation below)
 from sa.engine.context import Ctx
 from sa.engine.loader import AnalysisError, dotted, norm, short, walk_own, is_noise
-from sa.engine.callgraph import calls_in
+from sa.engine.callgraph import calls_in, resolve_call
 from sa.engine.loader import anorm
 from sa.engine.report import Finding, RuleReport
 from sa.rules.c02 import run_walk
@@ -36,7 +36,7 @@ NOT_DECIDED = [
     "ragged rows and merged cells (grid geometry is value level)",
     "order of tables in the output", "index arithmetic of the trimming code (which column index is recorded as the last data column)"]
 TRUSTED = ["the tree grammars in sa/schemas", "ElementTree axis semantics", "openpyxl iter_rows(values_only=True) yields every cell of the used range"]
-FLOORS = {"C13-ROWS": 4, "C13-WALK": 60, "C13-KEY": 5, "C13-TRIM": 8, "C13-SPINE": 2, "C13-DIM": 5, "C13-VIEW": 5}
+FLOORS = {"C13-ROWS": 4, "C13-ODS": 2, "C13-WALK": 60, "C13-KEY": 5, "C13-TRIM": 8, "C13-SPINE": 2, "C13-DIM": 5, "C13-VIEW": 5}
 
 W = s_docx.NS["w"]
 TABLE_WALKS = [
@@ -338,4 +338,55 @@ def rule_rows(ctx: Ctx) -> RuleReport:
     return rep
 
 
-RULES = [rule_walk, rule_key, rule_trim, rule_spine, rule_dim, rule_view, rule_rows]
+def rule_ods(ctx: Ctx) -> RuleReport:
+    """ODS sheets: rows may sit inside table:table-header-rows / table:table-rows / table:table-row-group (ODF 1.2 part 1, 9.1.2) and a
+    row holds covered cells next to cells (9.1.3). Direct-children searches lose the wrapped rows; skipping covered cells moves the cells
+    behind a merged cell to the left."""
+    ODS = X + "open_office/ods_extractor.py"
+    T = "urn:oasis:names:tc:opendocument:xmlns:table:1.0"
+    rep = RuleReport("C13-ODS", "the ODS sheet reader reaches rows inside header-rows / rows / row-group wrappers and counts covered cells as grid positions")
+    sh = ctx.p.func(ODS, "_extract_sheet")
+    rep.unit(sh.key)
+    params = [a.arg for a in sh.node.args.args]
+    loops = sorted([l for l in walk_own(sh.node) if isinstance(l, ast.For)], key=lambda l: l.lineno)
+    row_loop = next((l for l in loops if any(isinstance(x, ast.Name) and x.id in params for x in ast.walk(l.iter)) and any(isinstance(i, ast.For) for i in ast.walk(l) if i is not l)), None)
+    if row_loop is None:
+        raise AnalysisError("C13-ODS: the row loop of _extract_sheet was not found")
+
+    def tags_in(fn_or_node, mod):
+        out = set()
+        for c in ast.walk(fn_or_node):
+            v = ctx.folder.fold(mod, c) if isinstance(c, (ast.Name, ast.Constant, ast.JoinedStr)) else None
+            if isinstance(v, str) and v.startswith("{" + T + "}"):
+                out.add(v.split("}", 1)[1])
+            elif isinstance(v, (set, frozenset, tuple, list)):
+                out |= {x.split("}", 1)[1] for x in v if isinstance(x, str) and x.startswith("{" + T + "}")}
+            elif isinstance(v, str) and v.startswith("table:"):
+                out.add(v.split(":", 1)[1])
+        return out
+
+    it = row_loop.iter
+    ok_rows = False
+    if isinstance(it, ast.Call):
+        for g in resolve_call(ctx.p, sh, it).funcs:
+            tg = tags_in(g.node, g.module)
+            recursive = any(isinstance(c, ast.Call) and any(h is g for h in resolve_call(ctx.p, g, c).funcs) for c in ast.walk(g.node))
+            if {"table-row", "table-header-rows", "table-row-group"} <= tg and recursive:
+                ok_rows = True
+    if ok_rows:
+        rep.ok({"rows": "direct rows and rows inside header-rows / rows / row-group (recursive)"})
+    else:
+        rep.fail(Finding("C13-ODS", ODS, sh.qual, "rows from " + anorm(it, sh.node), f"the rows of a sheet are taken from `{short(it, 60)}`: rows that LibreOffice wraps in table:table-header-rows (rows to repeat) or table:table-row-group (outline groups) are not reached and the table has fewer rows than the source", line=row_loop.lineno))
+    cell_loops = [l for l in ast.walk(row_loop) if isinstance(l, ast.For) and l is not row_loop]
+    cl = cell_loops[0] if cell_loops else None
+    if cl is None:
+        raise AnalysisError("C13-ODS: the cell loop of _extract_sheet was not found")
+    seen = tags_in(cl.iter, sh.module) | {t for i in cl.body if isinstance(i, ast.If) for t in tags_in(i.test, sh.module)}
+    if "covered-table-cell" in seen and "table-cell" in seen:
+        rep.ok({"cells": "table-cell and covered-table-cell, in document order"})
+    else:
+        rep.fail(Finding("C13-ODS", ODS, sh.qual, "cells from " + anorm(cl.iter, sh.node), f"the cells of a row are taken from `{short(cl.iter, 60)}` and covered cells (the positions behind a merged cell) are not counted: every cell after a merged cell moves to the left and the row is shorter than in the source", line=cl.lineno))
+    return rep
+
+
+RULES = [rule_walk, rule_key, rule_trim, rule_spine, rule_dim, rule_view, rule_rows, rule_ods]
